@@ -89,7 +89,8 @@ def run_beam(i, case):
 
     c = case["cfg"]
     dim, elem, th, field = c["dim"], c["elem"], c["law"], c["field"]
-    key = f"beam{dim}D/{elem}/{th}/{field}"
+    welded = c.get("path", "elimination") == "lagrange"
+    key = f"beam{dim}D/{elem}/{th}/{field}" + ("/welded" if welded else "")
     viol = []
     amp = f2(case["strain"][0])
     with quiet():
@@ -98,16 +99,20 @@ def run_beam(i, case):
         # local y axis (deflection direction) perpendicular to the member, in the plane for 2-D
         ny = {1: np.array([0, 1.0, 0]), 2: np.array([-0.8, 0.6, 0]), 3: np.array([-1 / 3, 2 / 3, -2 / 3])}[dim]
         nz = np.cross(t, ny)
-        beam = Models.Beam.Isotropic(dim, Line(Point(0, 0, 0), Point(*(3 * t)), 0.75), section, 10.0, 0.25, yAxis=tuple(ny))
-        mesh = Mesher().Mesh_Beams([beam], elemType=ElemType(elem))
-        sim = Simulations.Beam(mesh, Models.Beam.BeamStructure([beam]), verbosity=False, useTimoshenko=(th == "Timo"))
+        cuts = [0.0, 1.5, 3.0] if welded else [0.0, 3.0]
+        beams = []
+        for a, b in zip(cuts[:-1], cuts[1:]):
+            sec = section if not beams else Mesher().Mesh_2D(Domain(Point(-0.25, -0.125), Point(0.25, 0.125)))
+            beams.append(Models.Beam.Isotropic(dim, Line(Point(*(a * t)), Point(*(b * t)), 0.75), sec, 10.0, 0.25, yAxis=tuple(ny)))
+        mesh = Mesher().Mesh_Beams(beams, elemType=ElemType(elem))
+        sim = Simulations.Beam(mesh, Models.Beam.BeamStructure(beams), verbosity=False, useTimoshenko=(th == "Timo"))
         X = sim.mesh.coord
         s = X @ t  # abscissa along the member
         ends = np.where((np.abs(s) < 1e-12) | (np.abs(s - 3) < 1e-12))[0]
         dofn = sim.Get_dof_n()
         U = np.zeros((sim.mesh.Nn, dofn))
         if field == "axial":
-            disp = np.outer(amp * s, t)
+            disp = np.outer(amp * s + 0.002, t)  # rigid offset: every prescribed value is non-zero
             rot = np.zeros((len(s), 3))
         else:
             disp = np.outer(amp * s**2 / 2, ny)
@@ -123,6 +128,13 @@ def run_beam(i, case):
             unk = ["x", "y", "z", "rx", "ry", "rz"]
         for k, name in enumerate(unk):
             sim.add_dirichlet(ends, [U[ends, k]], [name])
+        if welded:
+            joint = np.where(np.abs(s - 1.5) < 1e-12)[0]
+            if joint.size != 2:
+                raise RuntimeError(f"expected the two end nodes of the members at the weld, found {joint.size}")
+            sim.add_connection_fixed(joint)
+            if len(sim.Bc_Lagrange) == 0:
+                raise RuntimeError("vacuous: the weld created no Lagrange condition")
         u = sim.Solve().reshape(-1, dofn)
     sc = max(np.abs(U).max(), 1e-12)
     if np.abs(u - U).max() > 1e-8 * sc:
@@ -135,7 +147,22 @@ def run_beam(i, case):
             viol.append((f"force/{key}", f"{key}: reported {res} = {val[:3]}, the constant {field} gives {exp} (sign conventions aside)", {"case": case}))
     except Exception as ex:
         viol.append((f"force-raises/{key}", f"{key}: Result('{res}') raises {type(ex).__name__}: {ex}", {"case": case}))
-    return {"viol": viol, "n": 1, "keys": [("beam", dim, elem, th, field)], "traces": 1}
+    return {"viol": viol, "n": 1, "keys": [("beam", dim, elem, th, field, welded)], "traces": 1}
+
+
+def tie(sim, problemType, interior, bnodes, unknowns, exact):
+    """One Lagrange condition per unknown, in the style of examples/LinearizedElasticity/Homog1.py: u_a - u_b = value between an
+    interior node and another node, with the value the exact field takes - the problem then goes through the multiplier path."""
+    from EasyFEA.FEM._boundary_conditions import LagrangeCondition
+
+    a = int(interior[0])
+    b = int(interior[-1]) if interior.size > 1 else int(bnodes[0])
+    nodes = np.array([a, b])
+    for k, name in enumerate(unknowns):
+        dofs = sim.Bc_dofs_nodes(nodes, [name])
+        sim._Bc_Add_Lagrange(LagrangeCondition(problemType, nodes, dofs, [name], [exact[a, k] - exact[b, k]], [1, -1]))
+    if len(sim.Bc_Lagrange) == 0:
+        raise RuntimeError("vacuous: no Lagrange condition was recorded")
 
 
 def run_case(job):
@@ -152,7 +179,8 @@ def run_case(job):
             return {"viol": [(f"raises/beam{c['dim']}D/{c['elem']}/{c['law']}/{c['field']}", f"{type(ex).__name__}: {ex} | {traceback.format_exc()[-300:]}", {"case": case})], "n": 1, "keys": [], "traces": 1}
     dim, elem = c["dim"], c["elem"]
     viol = []
-    key = f"{c['phys']}{dim}D/{elem}/{c['law']}/{c['mesh']}/{c['map']}" + (f"/{c['bc']}" if c.get('bc', 'func') != 'func' else '')
+    lagr = c.get("path", "elimination") == "lagrange"
+    key = f"{c['phys']}{dim}D/{elem}/{c['law']}/{c['mesh']}/{c['map']}" + (f"/{c['bc']}" if c.get('bc', 'func') != 'func' else '') + ("/lagrange" if lagr else "")
     try:
         mesh0 = base_mesh(dim, elem, c["mesh"] == "mixed")
         A = np.array([[f2(q) for q in row] for row in case["A"]])
@@ -180,8 +208,10 @@ def run_case(job):
                     sim.add_dirichlet(bn, funcs, unk)
                 else:  # nodal arrays aligned with the node list as given
                     sim.add_dirichlet(bn, [f(X[bn, 0], X[bn, 1], X[bn, 2]) for f in funcs], unk)
-                u = sim.Solve().reshape(-1, dim)
                 exact = X[:, :dim] @ G.T + off
+                if lagr:
+                    tie(sim, "elastic", interior, bnodes, unk, exact)
+                u = sim.Solve().reshape(-1, dim)
             else:
                 mat = Models.Thermal(k=2.0, c=1.0, thickness=0.5)
                 sim = Simulations.Thermal(mesh, mat, verbosity=False)
@@ -189,8 +219,10 @@ def run_case(job):
                 tf = lambda x, y, z: g[0] * x + g[1] * y + (g[2] * z if dim == 3 else 0.0) + 3.0
                 bn = bnodes if c.get("bc", "func") != "array-permuted" else bnodes[np.random.default_rng(7).permutation(bnodes.size)]
                 sim.add_dirichlet(bn, [tf] if c.get("bc", "func") == "func" else [tf(X[bn, 0], X[bn, 1], X[bn, 2])], ["t"])
-                u = sim.Solve().reshape(-1, 1)
                 exact = (X[:, :dim] @ g + 3.0).reshape(-1, 1)
+                if lagr:
+                    tie(sim, "thermal", interior, bnodes, ["t"], exact)
+                u = sim.Solve().reshape(-1, 1)
         sc = max(np.abs(exact).max(), 1e-12)
         err = np.abs(u - exact).max() / sc
         if err > 1e-9:
@@ -221,7 +253,7 @@ def run_case(job):
         import traceback
 
         viol.append((f"raises/{key}", f"{key}: {type(ex).__name__}: {ex} | {traceback.format_exc()[-300:]}", {"case": case}))
-    return {"viol": viol, "n": 1, "keys": [(c["phys"], dim, elem, c["law"], c["ps"], c["mesh"], c["map"], c["field"])], "traces": 1}
+    return {"viol": viol, "n": 1, "keys": [(c["phys"], dim, elem, c["law"], c["ps"], c["mesh"], c["map"], c["field"], c.get("bc"), lagr)], "traces": 1}
 
 
 def run(ctx):
